@@ -42,11 +42,11 @@ static char g_loc[512];
 static void part_messages(uint64_t &top)
 {
     using namespace varcall;
-    std::vector<std::string> types; gen::type_strings(std::string(gen::VALUE_TAGS) + "[]", 0, 3, types);
+    std::vector<std::string> types; gen::type_strings(std::string(gen::VALUE_TAGS) + "[]", 0, vp::thorough() ? 4 : 3, types);
     for(size_t ti = 0; ti < types.size(); ++ti, ++top) {
         if(!vp::mine(top)) continue;
         const std::string &ts = types[ti];
-        auto vecs = gen::value_vectors(ts, false, 1);
+        auto vecs = gen::value_vectors(ts, false, vp::thorough() ? 2 : 1);
         for(size_t v = 0; v < vecs.size(); ++v) for(size_t al : {size_t(1), size_t(2 + v % 3), size_t(8)}) {
             std::string addr = gen::address(al);
             std::string cid = "msg|a" + std::to_string(al) + "|" + ts + "|v" + std::to_string(v);
@@ -101,9 +101,9 @@ static void part_messages(uint64_t &top)
         vp::outcome("messages with 31..130 arguments");
     }
     // bundles
-    auto alph = bgen::alphabet(2);
+    auto alph = bgen::alphabet(vp::thorough() ? 3 : 2);
     std::vector<std::string> mem; for(auto &e : alph) { std::string m = e.bytes; m.append(16, '\0'); mem.push_back(m); }
-    std::vector<std::vector<int>> seqs; bgen::sequences(alph.size(), 0, 3, seqs);
+    std::vector<std::vector<int>> seqs; bgen::sequences(alph.size(), 0, vp::thorough() ? 4 : 3, seqs);
     for(size_t si = 0; si < seqs.size(); ++si, ++top) {
         if(!vp::mine(top)) continue;
         std::string cid = "bundle|s"; for(int i : seqs[si]) cid += std::to_string(i) + ".";
@@ -165,8 +165,8 @@ static void derive(gt::Node &n, const std::string &prefix, std::set<std::string>
 }
 static void part_dispatch(uint64_t &top)
 {
-    static const char *U[] = {"a", "ab", "abc", "acb", "b#3", "c/d", "s/", "t#2/", "ab/", "a_port_name_of_more_than_16_chars", "a_port_name_of_more_than_16_charz/"};
-    const int NU = 11;
+    static const char *U[] = {"a", "ab", "abc", "acb", "b#3", "c/d", "s/", "t#2/", "ab/", "a_port_name_of_more_than_16_chars", "a_port_name_of_more_than_16_charz/", "b", "ba", "u#12/", "abcd"};
+    const int NU = vp::thorough() ? 15 : 11;
     for(uint32_t mask = 1; mask < (1u << NU); ++mask) for(int variant = 0; variant < 2; ++variant) for(int dh = 0; dh < 2; ++dh, ++top) {
         if(!vp::mine(top)) continue;
         std::string cid = "dispatch|m" + std::to_string(mask) + "|v" + std::to_string(variant) + "|d" + std::to_string(dh);
@@ -308,6 +308,7 @@ int main(int argc, char **argv)
     part_params(top);
     part_reply(top);
     part_threadlink(top);
+    if(vp::thorough()) vp::bound("thorough_extension", "type strings of length 0..4 over 17 symbols with two value rotations; bundles of 0..4 elements (nesting <= 3); dispatch over all 32767 subsets of a 15-name universe");
     vp::bound("families", "messages: all well-nested type strings of length 0..3 over 17 symbols x each-used values x 3 address lengths, built by amessage/message/vmessage and read by every accessor; bundles: all sequences of 0..3 elements (nesting <= 2); rtosc_match: 18 patterns x all addresses up to length 3 x 6 type strings; dispatch: all 2047 subsets of an 11-name universe (incl. names longer than the small-string buffer, callbacks with large closures) (hashed, linear, #N, multi-component, nested 3 levels) x specs x default handler x derived matching/non-matching/oversized messages x 3 dispatch modes; every port of the C14 application x 12 type strings, in/out of range values, unknown addresses; ThreadLink 16/32 x 2/3 with 0..3 pre-filled messages");
     vp::outcome("realtime sections checked", g_sections);
     vp::sample("RT section: rtosc_amessage + varargs + accessors for address '/a', types 'sbh'");
